@@ -34,6 +34,8 @@ def run(ctx):
                    "e1.disp_out over consecutive pairs; data/k/outputs wired index-wise", min_sites=6)
     ctx.rule("K3", "literal tables: ones-count validity set {4,5,6}; table shapes; flips = unbalanced + patches; complements "
                    "distinct; K.28 / alternate-7 patches on unused slots", min_sites=23)
+    ctx.rule("K4", "alternate 3b/4b code selection: alt7 flags = y == 7 & (x in {17,18,20} at RD- | x in {11,13,14} at RD+ | k); "
+                   "0111 / 1000 emitted exactly under them and flip the running disparity", min_sites=5)
     ctx.rule("PRIO", "no dead driver", min_sites=1)
 
     m = ctx.mod(F)
@@ -180,6 +182,33 @@ def run(ctx):
     ctx.ob("K3", F, "SingleEncoder", "K.28 encodes to 110000 (the slot patched in the decoder table)", ok, "" if ok else f"{[(a.v, a.gtext()) for a in k28]}")
     o4 = {a.v for a in fx.find(domain="comb", target="output_4b") if a.v in ("7", "8")}
     ctx.ob("K3", F, "SingleEncoder", "alternate D.x.7 emits 0111 / 1000 (the slots patched in the decoder table)", o4 == {"7", "8"}, f"{o4}")
+    # ---- K4 alternate-7 selection (IEEE 802.3 36.2.4.5 / Widmer-Franaszek): D.x.A7 when RD- and x in {17,18,20}, when RD+ and x in
+    #      {11,13,14}; K.x.7 always uses it
+    for flag, xs in (("alt7_rd0", (17, 18, 20)), ("alt7_rd1", (11, 13, 14))):
+        ds = fx.find(domain="sync", target=flag)
+        sets = [a for a in ds if a.v == "1"]
+        clr = [a for a in ds if a.v == "0"]
+        F1 = B.F
+        for a in sets:
+            F1 = B.Or(F1, B.guard_formula(a.guards))
+        want = B.from_expr("(self.d[5:] == 7) & ((self.d[:5] == %d) | (self.d[:5] == %d) | (self.d[:5] == %d) | self.k)" % xs)
+        ok = len(clr) == 1 and not clr[0].guards and all(fx.assigns.index(a) > fx.assigns.index(clr[0]) for a in sets) and \
+            len(ds) == len(sets) + 1 and B.equivalent(F1, want)
+        ctx.ob("K4", F, "SingleEncoder", f"{flag} = y == 7 & (x in {set(xs)} | k), cleared otherwise", ok,
+               "" if ok else f"{flag} is set under {B.show(F1)}; expected {B.show(want)}: a D.x.7 / K.x.7 symbol takes the primary 3b/4b code "
+                             f"at this running disparity (five equal bits in a row / a control symbol that decodes as data); e.g. "
+                             f"{B.counterexample(F1, want) or B.counterexample(want, F1)}", (sets or ds or [None])[0].line if (sets or ds) else 0)
+    arms = {a.v: a for a in fx.find(domain="comb", target="output_4b") if a.v in ("7", "8")}
+    if set(arms) == {"7", "8"}:
+        g7, g8 = arms["7"].eff(), arms["8"].eff()
+        ok = B.equivalent(g7, B.from_expr("~disp_inter & alt7_rd0")) and B.equivalent(g8, B.from_expr("disp_inter & alt7_rd1"))
+        ctx.ob("K4", F, "SingleEncoder", "0111 at RD- with alt7_rd0, 1000 at RD+ with alt7_rd1", ok,
+               "" if ok else f"0111 under {B.show(g7)}, 1000 under {B.show(g8)}", arms["7"].line)
+        for v in ("7", "8"):
+            dd = [a for a in fx.find(domain="comb", target="self.disp_out") if B.equivalent(a.eff(), arms[v].eff())]
+            ok = len(dd) == 1 and dd[0].v == "~disp_inter"
+            ctx.ob("K4", F, "SingleEncoder", f"alternate code {'0111' if v == '7' else '1000'} flips the running disparity", ok,
+                   "" if ok else f"{[(a.v, a.gtext()) for a in dd]}", arms[v].line)
 
 
 def _idx(a):
